@@ -230,9 +230,21 @@ def parse_collected_tasks_with_task_marker(
         if name in duplicated_names:
             selected_tasks = [i for i in parsed_tasks if i[0] == name]
             names_to_functions = _generate_ids_for_tasks(selected_tasks)
-            collected_tasks.update(names_to_functions)
         else:
-            collected_tasks[name] = next(i[1] for i in parsed_tasks if i[0] == name)
+            names_to_functions = {
+                name: next(i[1] for i in parsed_tasks if i[0] == name)
+            }
+
+        # A name which is set explicitly can be the same as an id generated for repeated
+        # tasks. Without the check, one of the tasks would be lost silently.
+        colliding_names = set(names_to_functions) & set(collected_tasks)
+        if colliding_names:
+            msg = (
+                "Some tasks have the same name which is either set explicitly or "
+                f"generated for repeated tasks: {sorted(colliding_names)}."
+            )
+            raise ValueError(msg)
+        collected_tasks.update(names_to_functions)
 
     return collected_tasks
 
